@@ -844,7 +844,7 @@ func errReturned(fn *ssa.Function, c ssa.CallInstruction) bool {
 // satisfying isVar: returns the number of variable leaves, the constant factor,
 // and whether v has that shape.
 func productOf(v ssa.Value, isVar VP) (int, int64, bool) {
-	v = peel(v)
+	v = peel(unhelp(peel(v)))
 	if isVar(v) {
 		return 1, 1, true
 	}
